@@ -41,4 +41,69 @@ def build(reg):
                  ('others-kept', "all_bytes('k', k != lower(header) ==> "
                                  "((not isnone(self.headers) and self.headers.has(k)) == (not isnone(old(self.headers)) and old(self.headers).has(k))))")],
         raises={}))
+    T += request_path_contracts(reg)
     return T
+
+
+def request_path_contracts(reg):
+    """on_request_complete (first request) and on_client_data (later requests): an authentication
+    failure reaches nothing, and Proxy-Authorization never reaches the origin."""
+    from pyvc.engine import SpecFun
+    reg.specfuns['has_field'] = SpecFun('has_field', ['bytes', 'bytes'], 'bool')
+    G = {'connects': 'int', 'bu_raised': 'bool'}
+    HP = ('obj', 'HttpParser')
+    reg.contract('<plugin>', 'ProxyBasePlugin.before_upstream_connection', params={'request': HP},
+                 self_cls='ProxyBasePlugin', assumed=True, modifies=[], result=('opt', HP),
+                 ghost_init={'bu_raised': 'bool'}, ensures=['bu_raised == old(bu_raised)'],
+                 raises={'Exception': ['bu_raised']}, note='adversarial user/auth plugin hook; ghost bu_raised marks a rejection')
+    reg.contract('<plugin>', 'ProxyBasePlugin.handle_client_request', params={'request': HP},
+                 self_cls='ProxyBasePlugin', assumed=True, modifies=[], result=('opt', HP), raises={'Exception': []})
+    UP_FRESH = ('not isnone(self.upstream) and len(self.upstream.buffer) == 0 and self.upstream._num_buffer == 0 '
+                'and not self.upstream.closed and not isnone(self.upstream._conn)')
+    reg.contract(SV, 'HttpProxyPlugin.connect_upstream', self_cls='HttpProxyPlugin', assumed=True,
+                 modifies=['self.upstream'], raise_modifies=['self.upstream'], ghost_init={'connects': 'int'},
+                 ensures=['connects == old(connects) + 1', UP_FRESH],
+                 raises={'proxy.http.exception.HttpProtocolException': ['connects == old(connects) + 1']},
+                 note='opens the upstream connection (C14); ghost connects counts attempts')
+    reg.contract(SV, 'HttpProxyPlugin.emit_request_complete', self_cls='HttpProxyPlugin', assumed=True, modifies=[], raises={})
+    reg.contract(SV, 'HttpProxyPlugin.intercept', self_cls='HttpProxyPlugin', assumed=True, result='bool',
+                 modifies=['self.client.buffer', 'self.client._num_buffer', 'self.client.wire'], raises={},
+                 ensures=['self.client._num_buffer == len(self.client.buffer)'], note='TLS interception (C11)')
+    reg.contract(PF, 'HttpParser.build', self_cls='HttpParser', assumed=True, result='bytes', modifies=[],
+                 params={'disable_headers': ('opt', ('list', 'bytes')), 'for_proxy': 'bool', 'host': ('opt', 'bytes')},
+                 ensures=[('only-present-and-enabled-fields',
+                           "all_bytes('k', has_field(result, k) ==> (not isnone(self.headers) and self.headers.has(k) "
+                           "and not (not isnone(disable_headers) and contains(disable_headers, k))))"),
+                          ('instance-proxy-authorization',
+                           "has_field(result, b'proxy-authorization') ==> (not isnone(self.headers) and "
+                           "self.headers.has(b'proxy-authorization'))")],
+                 raises={'AssertionError': []},
+                 note='serialisation contract of the rebuild: a field is emitted only if present and not disabled (C02)')
+    dh = reg.contract(
+        PF, 'HttpParser.del_headers', self_cls='HttpParser', params={'headers': ('list', 'bytes')},
+        modifies=['self.headers'],
+        ensures=[('all-deleted', "forall('j', 0, len(headers), isnone(self.headers) or not self.headers.has(lower(headers[j])))")],
+        raises={},
+        loops={0: LoopSpec(index='i', modifies=['self.headers'],
+                           inv=["forall('j', 0, i, isnone(self.headers) or not self.headers.has(lower(headers[j])))"])})
+    PRE = [('client-inv', 'self.client._num_buffer == len(self.client.buffer)'),
+           ('first-request', 'isnone(self.upstream)'), ('no-pool', 'not self.flags.enable_conn_pool')]
+    NOT_FWD = "not has_field(self.upstream.buffer[len(self.upstream.buffer) - 1], b'proxy-authorization')"
+    orc = reg.contract(
+        SV, 'HttpProxyPlugin.on_request_complete', self_cls='HttpProxyPlugin', requires=PRE, ghost_init=G,
+        result='bool',
+        modifies=['self.upstream', 'self.request', 'self.client.buffer', 'self.client._num_buffer', 'self.client.wire'],
+        raise_modifies=['self.upstream', 'self.request'],
+        ensures=[('credentials-never-forwarded',
+                  '(not isnone(self.upstream) and len(self.upstream.buffer) > 0) ==> %s' % NOT_FWD),
+                 ('at-most-one-connect', 'connects <= old(connects) + 1'),
+                 ('forwarded-only-after-connect', '(not isnone(self.upstream)) ==> connects == old(connects) + 1')],
+        raises={'Exception': [('rejection-reaches-nothing',
+                               '(bu_raised and not old(bu_raised)) ==> (connects == old(connects) and isnone(self.upstream))')]},
+        loops={0: LoopSpec(index='i', modifies=['self.request', 'r', 'do_connect'],
+                           inv=['connects == old(connects)', 'isnone(self.upstream)', 'bu_raised == old(bu_raised)']),
+               1: LoopSpec(index='i', modifies=['self.request', 'r'],
+                           inv=['connects <= old(connects) + 1', 'bu_raised == old(bu_raised)',
+                                'isnone(self.upstream) or (%s)' % UP_FRESH,
+                                '(not isnone(self.upstream)) ==> connects == old(connects) + 1'])})
+    return [dh, orc]
